@@ -68,9 +68,11 @@ def check_core(info, r, gamma, out):
     with np.errstate(all='ignore'):
         dev = np.abs(c[fin] + g[fin] + 1.0)
         bad = ~(dev <= 8 * EPS * (1 + np.abs(g[fin])))
-    if bad.any() and info['clo'] == 'HNC' and not info['hc']:
-        # HNC without the flag rests on exp(gamma - u) underflowing; it cannot for gamma >= high_value/kT - 745
-        beyond = (g[fin] - info['u_core']) > -745.2
+    if bad.any() and info['clo'] == 'HNC':
+        # where the core comes from the potential only (no flag, or r beyond the flag's sigma_d but inside an explicit, larger
+        # potential sigma) HNC rests on exp(gamma - u) underflowing; it cannot for gamma >= high_value/kT - 745
+        by_flag = (r[core_idx][fin] <= info['sigma_flag']) if info['hc'] else np.zeros(int(fin.sum()), dtype=bool)
+        beyond = ((g[fin] - info['u_core']) > -745.2) & ~by_flag
         if np.all(beyond[bad]):
             ctx.violation('core:HNC-without-flag-gamma-beyond-high-value', 'HNC without flag: gamma=%.6g >= high_value/kT - 745 = %.6g inside the core' % (float(g[fin][bad].max()), info['u_core'] - 745.2))
             return
@@ -150,7 +152,7 @@ def run_case(ctx, case):
             ncore_pairs += 1
         _S['registry'][id(p.sys.closure[a, b])] = {'pair': '%s-%s' % (a, b), 'core': np.where(m)[0], 'clo': sp['clo'][G.pk(a, b)]['t'], 'hc': bool(sp['clo'][G.pk(a, b)].get('hc')),
                                                   'pot': sp['pot'][G.pk(a, b)]['t'], 'sigma': sig,
-                                                  'u_core': sp['pot'][G.pk(a, b)].get('hv', 1e6) / sp['kT']}
+                                                  'u_core': sp['pot'][G.pk(a, b)].get('hv', 1e6) / sp['kT'], 'sigma_flag': (sp['d'][a] + sp['d'][b]) / 2.0}
     n = sp['L'] * len(sp['types']) ** 2
     before = ctx.hooks.get('core.evaluation_checked', 0)
     _S['active'] = True
